@@ -118,6 +118,9 @@ C04_Untouched == Step(Untouched)
 C04_Conforming == Step(Conforming)
 C04_NonNegative == NonNegative(st)
 
+(* the same step properties in one pass over the enabled actions (quick tier) *)
+C04_AllSteps == \A a \in EnabledActs(st) : LET r == Apply(st, a) IN Gate(st, a, r) /\ Once(st, a, r) /\ Untouched(st, a, r) /\ Conforming(st, a, r)
+
 ASSUME PrintT(<<"INST", ToJson(InstBase(RawPayloads, <<"r1", "r2", "r3", "r9">>))>>)
 Dump == DumpNode(st, EnabledActs(st))
 =============================================================================
